@@ -50,8 +50,9 @@ def stdIdeal (j : Fin (n + 1)) : Fin (n + 2) → K := fun i =>
   else 0
 
 /-- `Hyperplane._compute_ideal_basis`: the rows of the hyperplane data are the normal and the
-images `b_j · T` of the standard ideal basis under `T = spacelike_to(normal)` (contract:
-`T` preserves the form and its row 1 is the normalised normal) -/
+images `b_j · T` of the standard ideal basis under `T = spacelike_to(normal)` (repaired code: the
+frame `(t, v̂)` completed by `find_isometry`, model `GT.GS.spacelikeTo`; used here through its
+contract: `T` preserves the form and its row 1 is the normalised normal) -/
 def hyperplaneData (T : Matrix (Fin (n + 2)) (Fin (n + 2)) K) (normal : Fin (n + 2) → K) :
     Fin (n + 2) → Fin (n + 2) → K :=
   Fin.cons normal fun j => stdIdeal j ᵥ* T
